@@ -9,6 +9,10 @@ ROOT = os.path.dirname(os.path.dirname(os.path.abspath(__file__)))
 LEAN = os.path.join(ROOT, "lean")
 HARN = os.path.join(ROOT, "harness")
 WORK = os.path.join(ROOT, ".work")
+# evaluations of seeded / behaviour-preserving changes (driver/eval_*.py, recheck_seeds.py) run the
+# checks against a deliberately modified /repo: their evidence must not replace the evidence of
+# the unchanged tree, so they set VERIF_SCRATCH_EVIDENCE=1 and it goes under .work/
+EVDIR = os.path.join(".work", "evidence-scratch") if os.environ.get("VERIF_SCRATCH_EVIDENCE") else "evidence"
 REPO = os.environ.get("VERIF_REPO", "/repo")
 ALLOWED_AXIOMS = {"propext", "Classical.choice", "Quot.sound"}
 FORBIDDEN = re.compile(r"\bsorry\b|\badmit\b|^\s*axiom\s|native_decide|bv_decide|implemented_by|\bunsafe\s|maxHeartbeats\s+0\b")
@@ -285,7 +289,7 @@ def main():
     seed = int(os.environ.get("VERIF_SEED", "1"))
     tier = args.tier
     t0 = time.time()
-    os.makedirs(os.path.join(ROOT, "evidence", "replays"), exist_ok=True)
+    os.makedirs(os.path.join(ROOT, EVDIR, "replays"), exist_ok=True)
     os.makedirs(WORK, exist_ok=True)
     broken = []      # broken proof obligations / correspondence (strings)
     notes = []
@@ -475,7 +479,7 @@ def main():
     replay_paths = []
 
     def write_replay(idx, payload):
-        p = os.path.join(ROOT, "evidence", "replays", f"{pid}-{idx}.json")
+        p = os.path.join(ROOT, EVDIR, "replays", f"{pid}-{idx}.json")
         json.dump(payload, open(p, "w"), indent=1)
         return os.path.relpath(p, ROOT)
 
@@ -527,7 +531,7 @@ def main():
         assumptions=cfg.get("assumptions", []),
         wall_s=round(wall, 2), violations=len(violations) + (1 if (broken and not violations) else 0),
     )
-    json.dump(ev, open(os.path.join(ROOT, "evidence", f"{pid}.json"), "w"), indent=1)
+    json.dump(ev, open(os.path.join(ROOT, EVDIR, f"{pid}.json"), "w"), indent=1)
     log(f"{pid} {tier}: theorems {len(discharged)}/{len(thms)}, stream lines {lines}, cases {evaluations}, "
         f"diffs {len(violations_from_diff)}, oracle violations {len(violations)}, known {len(known_hits)}, {wall:.1f}s")
     sys.exit(exit_code)
